@@ -162,6 +162,8 @@ example : Fits 32 (K * 32 + 5 * 32 + 7) ∧
             (K + 7, 7), (K + 8, 0)] := by
   refine ⟨⟨by decide, fun _ => by decide⟩, by decide +kernel⟩
 
+open Babylon.Log.App
+
 /-! ### Part B — abstract event model of `AsyncFileAppender` (Babylon/Log/Appender.lean)
 
 The theorem is about the *model*: the queue is replaced by its specification (C01: items are popped
@@ -170,7 +172,6 @@ real appender is tied to the model by sampling only (checks/C20.py: multi-thread
 recorded rounds are replayed through `App.step`).
 -/
 
-open Babylon.Log.App in
 /-- Generated obligations for the appender: batch bound, chunk bound, stop-marker test, queue
 flags, statement order of `keep_writing` / `write_use_plain_writev` / `close`. -/
 theorem gen_appender_shapes :
@@ -183,7 +184,6 @@ theorem gen_appender_shapes :
     skel_write_use_plain_writev = [.call "writev", .call "deallocate", .call "clear", .call "clear"] ∧
     skel_close = [.call "joinable", .call "push", .call "join"] ∧ skel_write = [.call "push"] := by decide
 
-open Babylon.Log.App in
 /-- **appender_each_once_ordered.**  Take any event history of the model (any number of logging
 threads reserving / publishing entries, `close()`, any batching `round n1 n2 fds` of the writer with
 any descriptors, i.e. any rotation) after which `keep_writing` has returned.  Let `pre` be the
@@ -222,7 +222,6 @@ theorem appender_each_once_ordered (capacity : Nat) (evs : List Ev) (s : State)
     exact hab (hall a ha) (hall b hb) htid
   · rw [← hp]; exact h.freedPerm
 
-open Babylon.Log.App in
 /-- When nothing is written after `close()` the files hold exactly the entries written before it. -/
 theorem appender_no_write_after_close (capacity : Nat) (evs : List Ev) (s : State)
     (hrun : run (init capacity) evs = some s) (hwf : ∀ e ∈ evs, e.WF) (hexit : s.exited = true)
@@ -236,7 +235,6 @@ theorem appender_no_write_after_close (capacity : Nat) (evs : List Ev) (s : Stat
   simp only [List.append_nil] at h2 h6
   exact ⟨h2, h6⟩
 
-open Babylon.Log.App in
 /-- `hist` is the sequence of `reserve` / `close` events in the order they happened: ticket order. -/
 theorem appender_hist_is_ticket_order (capacity : Nat) (evs : List Ev) (s : State)
     (hrun : run (init capacity) evs = some s) :
@@ -252,10 +250,11 @@ def exampleEvents : List Ev :=
    .round 1 1 [5, 4]]
 
 example : (∀ e ∈ exampleEvents, e.WF) ∧
-    ((run (init 4) exampleEvents).map (fun s => (s.exited,
-        s.out.map (fun x => (x.file, x.fd, x.calls.map List.length)), s.freed.length))) =
-      some (true, [(7, 3, [2]), (9, 4, [1]), (7, 5, [1024, 476])], 1503) := by
-  refine ⟨?_, by decide +kernel⟩
+    (run (init 4) exampleEvents).map (·.exited) = some true ∧
+    (run (init 4) exampleEvents).map (fun s => s.out.map (fun x => (x.file, x.fd, x.calls.map List.length))) =
+      some [(7, 3, [2]), (9, 4, [1]), (7, 5, [1024, 476])] ∧
+    (run (init 4) exampleEvents).map (·.freed.length) = some 1503 := by
+  refine ⟨?_, by decide +kernel, by decide +kernel, by decide +kernel⟩
   intro e he
   simp only [exampleEvents, List.mem_cons, List.not_mem_nil, or_false] at he
   rcases he with rfl | rfl | rfl | rfl | rfl | rfl | rfl | rfl | rfl | rfl <;> simp [Ev.WF]
